@@ -204,10 +204,35 @@ def anchored_docs(key):
                  (("b", 0), "secret", "shared secret"),
                  (("top",), "secret", "other")],
                 [[("a", 0), ("b", 0)]]))
+    # the same ciphertext pasted twice, and two equal records: twins which are
+    # NOT shared through an anchor (each is a secret of its own to rotate)
+    out.append(("twin-ciphertexts",
+                "items:\n  - %s\n  - plain\n  - %s\n  - %s\n" % (
+                    enc, enc, enc2),
+                [(("items", 0), "secret", "shared secret"),
+                 (("items", 1), "plain", "plain"),
+                 (("items", 2), "secret", "shared secret"),
+                 (("items", 3), "secret", "other")], []))
+    out.append(("twin-records",
+                "list:\n  - password: %s\n    user: plain\n"
+                "  - password: %s\n    user: plain\n"
+                "  - password: %s\n    user: plain\n" % (enc, enc, enc),
+                [(("list", 0, "password"), "secret", "shared secret"),
+                 (("list", 0, "user"), "plain", "plain"),
+                 (("list", 1, "password"), "secret", "shared secret"),
+                 (("list", 1, "user"), "plain", "plain"),
+                 (("list", 2, "password"), "secret", "shared secret")], []))
+    out.append(("twin-values",
+                "a: %s\nb: %s\nc:\n  - - %s\n  - - %s\n" % (
+                    enc, enc, enc, enc),
+                [(("a",), "secret", "shared secret"),
+                 (("b",), "secret", "shared secret"),
+                 (("c", 0, 0), "secret", "shared secret"),
+                 (("c", 1, 0), "secret", "shared secret")], []))
     return out
 
 
-N_ANCHORED = 8
+N_ANCHORED = 11
 
 
 def plan(tier):
